@@ -14,6 +14,7 @@ import (
 	mathrand "math/rand"
 	"os"
 	"path/filepath"
+	"sort"
 	"strconv"
 	"strings"
 	"sync"
@@ -259,4 +260,29 @@ func KeepSource(importPath, name string, content []byte) {
 		return
 	}
 	os.WriteFile(filepath.Join(pkgDir, name), content, 0o666)
+}
+
+// CanonDigest digests the content of a package cache entry independently of map order.
+func CanonDigest(names map[string]string, apis map[string]map[int]bool) string {
+	var lines []string
+	for k, v := range names {
+		lines = append(lines, "n\x00"+k+"\x00"+v)
+	}
+	for k, m := range apis {
+		var idx []int
+		for i, ok := range m {
+			if ok {
+				idx = append(idx, i)
+			}
+		}
+		sort.Ints(idx)
+		lines = append(lines, "a\x00"+k+"\x00"+fmt.Sprint(idx))
+	}
+	sort.Strings(lines)
+	h := sha256.New()
+	for _, l := range lines {
+		io.WriteString(h, l)
+		h.Write([]byte{'\n'})
+	}
+	return strconv.Itoa(len(lines)) + ":" + hex.EncodeToString(h.Sum(nil)[:12])
 }
